@@ -18,7 +18,7 @@ func vrtHarness_C01_tdc() {
 	stream := vrtChoice(2) == 1
 	conn := &vrtConn{stream: stream}
 	dc := NewDnsConn(TraditionalDnsConnOpts{WithLengthHeader: stream, MaxConcurrentQuery: 8}, conn)
-	dc.nextQid = vrtU16()
+	vrtSetCounter(&dc.nextQid, vrtU16(), vrtChoice(2) == 1)
 	actions := vrtParam("server_actions", 2)
 	const strayTag = 0xEEEE
 
@@ -75,7 +75,7 @@ func vrtHarness_C01_tdc() {
 			if i == 1 {
 				// arbitrary many queries came and went: the counter is anywhere
 				dc.queueMu.Lock()
-				dc.nextQid = vrtU16()
+				vrtSetCounter(&dc.nextQid, vrtU16(), vrtChoice(2) == 1)
 				dc.queueMu.Unlock()
 			}
 			ex, _ := dc.ReserveNewQuery()
